@@ -323,9 +323,9 @@ Proof.
     + exists o. split; auto. rewrite Co, Htgt, (nls_nonpos t file 0) by lia. reflexivity.
   - destruct (first_inner_spec t L chunker file HL Hsize Hck (s - 1) ltac:(lia) end_ ge Hge Hend
                 _ Hfuel (chunker (s - 1) ge) 0) as (o & E & Co); try lia.
-    + subst end_. destruct (Z.leb_spec (zlen file) e); cbv iota; unfold U64MAX in *; lia.
-    + subst ge. unfold sat_add, U64MAX in *. lia.
-    + replace (s - 1 + 0) with (s - 1) by lia. apply Hck; subst ge; unfold sat_add, U64MAX in *; lia.
+    + subst end_. destruct (Z.leb_spec (zlen file) e); cbv iota; lia.
+    + subst ge. unfold sat_add. lia.
+    + replace (s - 1 + 0) with (s - 1) by lia. apply Hck; subst ge; unfold sat_add; lia.
     + rewrite slice_empty by lia. reflexivity.
     + exists o. split; auto. rewrite Co, Htgt. do 2 f_equal. lia.
 Qed.
